@@ -11,7 +11,7 @@
 (* The actions are total; violations are recorded in `bad` (see RequestObs.tla).         *)
 EXTENDS Naturals, Sequences, FiniteSets, TLC
 
-VARIABLES cl,    \* client -> [up, reg ("no"|"sent"|"acked"), schema (registered for SCHEMA_CHANGE)]
+VARIABLES cl,    \* client -> [up, reg ("no"|"sent"|"acked"), schema (registered for SCHEMA_CHANGE), ver (protocol version of the connection)]
           ev,    \* event id -> [kind, h, must, may, got (set of <<client>> that received it), open]
           bad
 
@@ -21,14 +21,14 @@ Flag(ok, what, c) == IF ok THEN bad ELSE (IF Len(bad) < 200 THEN Append(bad, [p 
 Up(c) == c \in DOMAIN cl /\ cl[c].up
 OpenEvents == {e \in DOMAIN ev : ev[e].open}
 
-DoHello(c) ==
-    /\ cl' = (c :> [up |-> TRUE, reg |-> "no", schema |-> FALSE]) @@ cl
+DoHello(c, ver) ==
+    /\ cl' = (c :> [up |-> TRUE, reg |-> "no", schema |-> FALSE, ver |-> ver]) @@ cl
     /\ UNCHANGED <<ev, bad>>
 
 (* the client sent REGISTER; `schema` says whether SCHEMA_CHANGE is among the types *)
 DoRegister(c, schema) ==
     /\ cl' = [cl EXCEPT ![c] = [@ EXCEPT !.reg = "sent", !.schema = @ \/ schema]]
-    /\ ev' = [e \in DOMAIN ev |-> IF ev[e].open /\ ev[e].kind = "schema" /\ (schema \/ cl[c].schema)
+    /\ ev' = [e \in DOMAIN ev |-> IF ev[e].open /\ ev[e].kind = "schema" /\ (schema \/ cl[c].schema) /\ (~ev[e].v4only \/ cl[c].ver >= 4)
                                   THEN [ev[e] EXCEPT !.may = @ \cup {c}] ELSE ev[e]]
     /\ UNCHANGED bad
 
@@ -43,23 +43,27 @@ DoClose(c) ==
     /\ UNCHANGED bad
 
 (* the backend wrote an EVENT frame on the registered control connection *)
-DoEmit(e, kind, h) ==
-    /\ ev' = (e :> [kind |-> kind, h |-> h, open |-> TRUE, got |-> {},
-                    must |-> IF kind = "schema" THEN {c \in DOMAIN cl : cl[c].up /\ cl[c].reg = "acked" /\ cl[c].schema} ELSE {},
-                    may  |-> IF kind = "schema" THEN {c \in DOMAIN cl : cl[c].up /\ cl[c].reg # "no" /\ cl[c].schema} ELSE {}]) @@ ev
+\* v4only: a change of a function or an aggregate, which protocol versions before 4 cannot express: such an event has no
+\* "same content" for a v3 client and is not delivered to it (Cassandra does not send it either)
+DoEmit(e, kind, h, v4only) ==
+    LET can(c) == ~v4only \/ cl[c].ver >= 4 IN
+    /\ ev' = (e :> [kind |-> kind, h |-> h, open |-> TRUE, got |-> {}, v4only |-> v4only,
+                    must |-> IF kind = "schema" THEN {c \in DOMAIN cl : cl[c].up /\ cl[c].reg = "acked" /\ cl[c].schema /\ can(c)} ELSE {},
+                    may  |-> IF kind = "schema" THEN {c \in DOMAIN cl : cl[c].up /\ cl[c].reg # "no" /\ cl[c].schema /\ can(c)} ELSE {}]) @@ ev
     /\ UNCHANGED <<cl, bad>>
 
 (* client c received an EVENT frame that carries event e (matched by content hash) *)
-DoRecv(c, e, stream, sameContent) ==
+DoRecv(c, e, stream, sameContent, ver) ==
     IF e \notin DOMAIN ev THEN
         /\ bad' = Flag(FALSE, "EVENT frame that no backend event corresponds to", c) /\ UNCHANGED <<cl, ev>>
     ELSE
     /\ ev' = [ev EXCEPT ![e].got = @ \cup {c}]
-    /\ bad' = Flag(ev[e].kind = "schema" /\ c \in ev[e].may /\ c \notin ev[e].got /\ stream = 0 - 1 /\ sameContent,
+    /\ bad' = Flag(ev[e].kind = "schema" /\ c \in ev[e].may /\ c \notin ev[e].got /\ stream = 0 - 1 /\ sameContent /\ ver = cl[c].ver,
                    IF ev[e].kind # "schema" THEN "topology/status event forwarded to a client"
                    ELSE IF c \notin ev[e].may THEN "schema event delivered to a client that did not register for SCHEMA_CHANGE"
                    ELSE IF c \in ev[e].got THEN "schema event delivered twice to one client"
                    ELSE IF stream # 0 - 1 THEN "EVENT frame not on stream -1"
+                   ELSE IF ver # cl[c].ver THEN "EVENT frame carries another protocol version than the client's connection"
                    ELSE "EVENT frame content differs from the backend's event", c)
     /\ UNCHANGED cl
 
